@@ -566,7 +566,8 @@ class Interp:
         run.steps += 1
         if run.steps > self.cfg.max_steps:
             raise CutoffSig(f"step budget {self.cfg.max_steps} exhausted at {self.locof(st)}")
-        if self.cfg.preempt_action is not None and env.func in self.cfg.preempt_in and not run.memo.get("@preempted") \
+        if self.cfg.preempt_action is not None and (env.func in self.cfg.preempt_in or ("*" in self.cfg.preempt_in and run.memo.get("@preempt_armed"))) \
+                and not run.memo.get("@preempted") \
                 and not run.memo.get("@in_preempt"):
             if run.choose(2, self.locof(st), f"another thread runs before `{short(st, 50)}`") == 1:
                 run.memo["@preempted"] = self.locof(st)
